@@ -422,7 +422,10 @@ func extractDevAuthData(authHeader string) map[string]interface{} {
 	if authHeader == "" {
 		return nil
 	}
-	token := strings.TrimPrefix(authHeader, "Bearer ")
+	token := authHeader
+	if t, ok := server.BearerToken(authHeader); ok {
+		token = t
+	}
 	if !strings.HasPrefix(token, "demo-token-") {
 		return nil
 	}
